@@ -835,10 +835,10 @@ class StochasticSolver(MultiTrajSolver):
                 None, state0, tlist, e_ops, generator=generator
             )
             _, result = self._integrate_one_traj(None, tlist, result)
-        except Exception as err:
+        finally:
+            # The step of the replay must not stay in the solver.
             if old_dt is not None:
                 self._integrator.options["dt"] = old_dt
-            raise
 
         stats['preparation time'] += mid_time - start_time
         stats['run time'] = time() - mid_time
